@@ -305,6 +305,16 @@ def basename (p : Str) : Str :=
 /-- `safe_str` in `Job.__init__` (ASCII names) -/
 def safeStr (s : Str) : Str := s.map fun c => if c.isAlphanum || c = '-' then c else '_'
 
+/-- `Job.__init__`: the job's scratch directory.  The *name* is truncated, the unique token is appended afterwards and in full:
+```
+maxnamelen = 250 - len(self._token)
+self._dirname = f'{safe_str(name)[:maxnamelen]}-{self._token}' if name else self._token
+``` -/
+def jobDirname (name : Option Str) (tok : Str) : Str :=
+  match name with
+  | some nm => (safeStr nm).take (250 - tok.length) ++ ['-'] ++ tok
+  | none => tok
+
 /-- replace every `{root}` in a `declare_resource_group` template (the only f-string field the check uses) -/
 def substRoot (root : Str) : Str → Nat → Str
   | [], _ => []
@@ -403,9 +413,7 @@ def step (st : St) : Stmt → Except Err St
                    handles := r.1.handles ++ [Rid.group g] }
   | .job name =>
     let tok := token (st.tokCount + 1)
-    let dirname := match name with
-      | some nm => (safeStr nm).take (250 - tok.length) ++ ['-'] ++ tok
-      | none => tok
+    let dirname := jobDirname name tok
     let j := st.nJobs
     .ok { st with tokCount := st.tokCount + 1, nJobs := j + 1, job := fun k => if k = j then JobSt.empty dirname else st.job k }
   | .rgroup j gname files =>
